@@ -457,6 +457,18 @@ class Schema(dict, metaclass=LogicalMeta):
         #
         # return super().update(values)
 
+    def setdefault(self, key: str, default=None):
+        # dict.setdefault would store the value unparsed
+        if key in self:
+            return self[key]
+        self.__setitem__(key, default)
+        return self[key] if key in self else default
+
+    def __ior__(self, other):
+        # dict.__ior__ would store the values unparsed
+        self.update(other)
+        return self
+
     # def __copy__(self):
     #     return self.copy()
 
